@@ -123,7 +123,7 @@ func ruleC07R1(c *Ctx) {
 		// selected (then/else by the verdict of `if`; the lexical target, the dynamic-scope hit and the lexical
 		// fallback of one $dynamicRef): a site that picks "the $ref target, or else the $dynamicRef target"
 		// drops one of two keywords that can both be present
-		if len(s.SchemaSrc) > 1 {
+		if len(s.SchemaSrc) > 1 && s.Loc != "child" {
 			groups := [][]string{
 				{"Schema.Then", "Schema.Else"},
 				{"resolvedInfo.resolvedDynamicRef", "anchorInfo.schema", "resolvedInfo.dynamicRefFallback"},
@@ -890,6 +890,32 @@ func mustPass(start *ssa.BasicBlock, through map[*ssa.BasicBlock]bool, targets m
 	return true
 }
 
+// mustPassEdges: like mustPass, ignoring the given (infeasible) edges.
+func mustPassEdges(start *ssa.BasicBlock, through map[*ssa.BasicBlock]bool, targets map[*ssa.BasicBlock]bool, skip map[[2]*ssa.BasicBlock]bool) bool {
+	if through[start] {
+		return true
+	}
+	seen := map[*ssa.BasicBlock]bool{start: true}
+	stack := []*ssa.BasicBlock{start}
+	for len(stack) > 0 {
+		b := stack[len(stack)-1]
+		stack = stack[:len(stack)-1]
+		if targets[b] {
+			return false
+		}
+		for _, s := range b.Succs {
+			if skip[[2]*ssa.BasicBlock{b, s}] {
+				continue
+			}
+			if !seen[s] && !through[s] {
+				seen[s] = true
+				stack = append(stack, s)
+			}
+		}
+	}
+	return true
+}
+
 func ruleC07Records(c *Ctx) {
 	const rule = "C07/records"
 	m := c.EvalModel(rule)
@@ -996,7 +1022,37 @@ func ruleC07Records(c *Ctx) {
 				} else {
 					targets[mergeBlock] = true
 				}
-				ok2 = mustPass(sb, through, targets)
+				// a branch on "the evaluated schema is nil" cannot go the nil way after that schema was evaluated
+				pruned := map[*ssa.BasicBlock]bool{}
+				infeasible := map[[2]*ssa.BasicBlock]bool{}
+				for k, v := range through {
+					pruned[k] = v
+				}
+				for _, b := range fn.Blocks {
+					ifi, isIf := b.Instrs[len(b.Instrs)-1].(*ssa.If)
+					if !isIf || len(b.Succs) != 2 {
+						continue
+					}
+					x, k, equal, isEq := eqConst(guardAtom{Cond: ifi.Cond, Pol: true})
+					if !isEq || !k.IsNil() {
+						continue
+					}
+					carries := false
+					for _, sv := range append(traceSources(x), x) {
+						if c.isDirectFieldLoad(sv, src) {
+							carries = true
+						}
+					}
+					if !carries {
+						continue
+					}
+					nilSucc := b.Succs[1]
+					if equal {
+						nilSucc = b.Succs[0]
+					}
+					infeasible[[2]*ssa.BasicBlock{b, nilSucc}] = true
+				}
+				ok2 = mustPassEdges(sb, pruned, targets, infeasible)
 			} else {
 				// recorded in the evaluator body after the loop that runs the closure
 				through := recordBlocks(m.E, kind)
@@ -1305,7 +1361,7 @@ func ruleC07NoApplicatorSkipped(c *Ctx) {
 		c.R.Check(len(bad) == 0, rule, key, c.pos(s.siteInstr()), fmt.Sprintf("%v is applied whenever it is present (skippable only by its own presence, kind, draft and bookkeeping tests)", own),
 			fmt.Sprintf("the evaluation of %v can be skipped depending on the unrelated keyword(s) %v: the keyword's verdict and the annotations it would record (for unevaluated*) are lost for those schemas", own, uniq(bad)))
 	}
-	c.R.Floor(rule, "evaluation sites", n, 20)
+	c.R.Floor(rule, "evaluation sites", n, 14)
 }
 
 // isMembershipFn: fn(set, key) returns whether key is present in the map set (a lookup of its second parameter in its first).
